@@ -381,17 +381,17 @@ func c02Poisons() []poison {
 		{name: "bit-on-double", good: func(i int) bson.D { return set("p", i32(i)) }, bad: func(i int) bson.D { return set("p", 1.5) },
 			update: bson.D{{Key: "$bit", Value: set("p", bson.D{{Key: "or", Value: int32(4)}})}}},
 		{name: "unique-collision", good: func(i int) bson.D { return set("u", i32(10*i)) }, bad: func(i int) bson.D { return set("u", int32(1000)) },
-			extra: []bson.D{{{Key: "_id", Value: "partner"}, {Key: "u", Value: int64(1001)}, {Key: "grp", Value: "other"}}},
+			extra:  []bson.D{{{Key: "_id", Value: "partner"}, {Key: "u", Value: int64(1001)}, {Key: "grp", Value: "other"}}},
 			update: bson.D{{Key: "$inc", Value: set("u", int32(1))}}, index: &drv.IndexSpec{Keys: bson.D{{Key: "u", Value: int32(1)}}, Unique: true}},
 		{name: "multikey-unique-collision", good: func(i int) bson.D { return set("u", bson.A{i32(10 * i), i32(10*i + 1)}) }, bad: func(i int) bson.D { return set("u", bson.A{int32(2000)}) },
-			extra: []bson.D{{{Key: "_id", Value: "partner"}, {Key: "u", Value: bson.A{int32(5000), 7777.0}}, {Key: "grp", Value: "other"}}},
+			extra:  []bson.D{{{Key: "_id", Value: "partner"}, {Key: "u", Value: bson.A{int32(5000), 7777.0}}, {Key: "grp", Value: "other"}}},
 			update: bson.D{{Key: "$push", Value: set("u", int32(7777))}}, index: &drv.IndexSpec{Keys: bson.D{{Key: "u", Value: int32(1)}}, Unique: true}},
 		{name: "partial-unique-collision", good: func(i int) bson.D { return bson.D{{Key: "u", Value: int32(1)}, {Key: "f", Value: int32(0)}} }, bad: func(i int) bson.D { return bson.D{{Key: "u", Value: int32(9)}, {Key: "f", Value: int32(0)}} },
-			extra: []bson.D{{{Key: "_id", Value: "partner"}, {Key: "u", Value: int32(9)}, {Key: "f", Value: int32(5)}, {Key: "grp", Value: "other"}}},
+			extra:  []bson.D{{{Key: "_id", Value: "partner"}, {Key: "u", Value: int32(9)}, {Key: "f", Value: int32(5)}, {Key: "grp", Value: "other"}}},
 			update: bson.D{{Key: "$inc", Value: set("f", int32(5))}},
 			index:  &drv.IndexSpec{Keys: bson.D{{Key: "u", Value: int32(1)}}, Unique: true, Partial: bson.D{{Key: "f", Value: bson.D{{Key: "$gt", Value: int32(3)}}}}}},
 		{name: "compound-unique-collision", good: func(i int) bson.D { return bson.D{{Key: "u", Value: i32(i)}, {Key: "v", Value: int32(1)}} }, bad: func(i int) bson.D { return bson.D{{Key: "u", Value: int32(77)}, {Key: "v", Value: int32(1)}} },
-			extra: []bson.D{{{Key: "_id", Value: "partner"}, {Key: "u", Value: 77.0}, {Key: "v", Value: int32(2)}, {Key: "grp", Value: "other"}}},
+			extra:  []bson.D{{{Key: "_id", Value: "partner"}, {Key: "u", Value: 77.0}, {Key: "v", Value: int32(2)}, {Key: "grp", Value: "other"}}},
 			update: bson.D{{Key: "$set", Value: set("v", int32(2))}}, index: &drv.IndexSpec{Keys: bson.D{{Key: "u", Value: int32(1)}, {Key: "v", Value: int32(-1)}}, Unique: true}},
 		{name: "array-filter-on-scalar", good: func(i int) bson.D { return set("p", bson.A{int32(1), int32(5)}) }, bad: func(i int) bson.D { return set("p", int32(5)) },
 			update: bson.D{{Key: "$set", Value: set("p.$[e]", int32(0))}}, af: []bson.D{{{Key: "e", Value: bson.D{{Key: "$gte", Value: int32(3)}}}}}},
